@@ -89,10 +89,13 @@ func (c *RawHTTPResponder) Write(status int, body io.Reader) (written int64, err
 	resp.Body = io.NopCloser(countingreader.New(body, &read))
 	resp.StatusCode = status
 	c.parseAndSetContentLength()
-	if body == http.NoBody && resp.ContentLength > 0 {
-		// A body-less response that still declares the length of the representation is the answer
-		// to a HEAD request. http.Response.Write has to be told, otherwise it writes the head and
-		// then fails with a length mismatch.
+	resp.Request = nil
+	if body == http.NoBody {
+		// No body bytes are to be sent (answer to a HEAD request, 204, 304, empty upstream body),
+		// whatever length or transfer coding the head declares. http.Response.Write has to be told:
+		// otherwise it fails with a length mismatch after the head, or - when the length is
+		// unknown - appends a chunked terminator that the client takes for the start of the next
+		// response on the tunnel.
 		resp.Request = &http.Request{Method: http.MethodHead}
 	}
 
